@@ -176,6 +176,9 @@ func genC07(mode string, dims [][2]int) func(t *rapid.T) c07Case {
 			{"h+1", addMod(h, 1)}, {"h-1", addMod(h, -1)},
 			{"h^bit", ref.Mod(new(big.Int).Xor(h, ref.Pow2(rapid.IntRange(0, 252).Draw(t, "bit"))))},
 			{"zero", big.NewInt(0)}, {"random", genField(t, "rnd")},
+			// negative integers: representatives below zero are still representatives; negated values are other values
+			{"h-r", new(big.Int).Sub(h, ref.R)}, {"h-6r", new(big.Int).Sub(h, new(big.Int).Mul(ref.R, big.NewInt(6)))},
+			{"-h", new(big.Int).Neg(h)}, {"-(h+r)", new(big.Int).Neg(new(big.Int).Add(h, ref.R))},
 		}
 		// hash of a one-field-perturbed batch
 		if mode == "insertion" {
